@@ -41,11 +41,13 @@ def register(R):
     setm(f'{UT}:set_default_checksum_algorithm', lambda c: map_locs(c.a_extra_args))
     setm(f'{BW}:BandwidthLimitedStream._consume_through_leaky_bucket', lambda c: [('f', c.self, '_bytes_seen')])
     setm(f'{PP}:ProcessPoolDownloader._shutdown', lambda c: [('f', c.self, '_started')])
+    # an MRAP access-point ARN is replaced by its resource name in the call arguments
+    setm(f'{CRT}:S3ClientArgsCreator._default_get_make_request_args', lambda c: [('f', c.a_call_args, 'bucket')])
     setm(f'{MG}:TransferManager._submit_transfer', lambda c: [('f', c.self, '_id_counter')])
     setm(f'{UT}:ReadFileChunk.enable_callback', lambda c: [('f', c.self, '_callbacks_enabled')])
     setm(f'{UT}:ReadFileChunk.disable_callback', lambda c: [('f', c.self, '_callbacks_enabled')])
     # path downloads append their rename handler to the request's before-list
-    setm(f'{CRT}:S3ClientArgsCreator._get_make_request_args_get_object', lambda c: [('i', c.a_on_done_before_calls)])
+    setm(f'{CRT}:S3ClientArgsCreator._get_make_request_args_get_object', lambda c: [('i', c.a_on_done_before_calls), ('f', c.a_call_args, 'bucket')])
 
     # upload submission: consumes the source stream / the probe buffer, rewrites checksum arguments of the user's map
     def up_mod(c):
